@@ -24,8 +24,10 @@ InitCur == [model |-> EmptyModel, memo |-> <<>>, other |-> EmptyModel,
             m0 |-> EmptyModel, m1 |-> EmptyModel, gen |-> 0, wd |-> <<>>, wmemo |-> <<>>, fmt |-> "",
             pj |-> [out |-> "none", anom |-> <<>>, post |-> EmptyModel]]
 
+EditActions == {"EditCard", "EditAddChild", "EditRemoveKid", "EditAbstract", "EditAttrVal", "EditRemoveCtc",
+                "EditCtcOp", "EditRename"}
 BuilderActions == {"NewModel", "AddRelation", "SetAbstract", "SetType", "SetFCard",
-                   "AddAttribute", "AddConstraint", "ReplaceConstraint"}
+                   "AddAttribute", "AddConstraint", "ReplaceConstraint"} \cup EditActions
 
 ---------------------------------------------------------------------------
 (* Well-formedness clauses (C02), evaluated on any projected model *)
@@ -50,9 +52,30 @@ BuildExpected(cur, e) ==
     [] e.a = "AddAttribute"  -> AddAttributeF(cur.model, e.args.f, e.args.n, e.args.val, e.args.dom, e.args.nul)
     [] e.a = "AddConstraint" -> AddConstraintF(cur.model, e.args.n, e.args.ast)
     [] e.a = "ReplaceConstraint" -> [cur.model EXCEPT !.ctcs[Len(cur.model.ctcs)].ast = e.args.ast]
+    \* in-place edits through public attributes
+    [] e.a = "EditCard"      -> SetCardF(cur.model, RelIdx(cur.model, e.args.o, e.args.ri), e.args.lo, e.args.hi)
+    [] e.a = "EditAddChild"  -> AddChildF(cur.model, RelIdx(cur.model, e.args.o, e.args.ri), e.args.n)
+    [] e.a = "EditRemoveKid" -> LET j == RelIdx(cur.model, e.args.o, e.args.ri)
+                                    k == CHOOSE k \in DOMAIN cur.model.rels[j].kids : cur.model.rels[j].kids[k] = e.args.n
+                                IN  RemoveKidF(cur.model, j, k)
+    [] e.a = "EditAbstract"  -> ToggleAbstractF(cur.model, e.args.f)
+    [] e.a = "EditAttrVal"   -> SetAttrValF(cur.model, e.args.f, e.args.k, e.args.val)
+    [] e.a = "EditRemoveCtc" -> RemoveCtcF(cur.model, e.args.i)
+    [] e.a = "EditCtcOp"     -> SetCtcOpF(cur.model, e.args.i, e.args.op)
+    [] e.a = "EditRename"    -> RenameF(cur.model, e.args.f, e.args.n)
+\* the arguments of an edit refer to things the current model has
+EditArgsOK(cur, e) ==
+  LET m == cur.model IN
+  CASE e.a \in {"EditCard", "EditAddChild"} -> HasRel(m, e.args.o, e.args.ri)
+    [] e.a = "EditRemoveKid" -> HasRel(m, e.args.o, e.args.ri) /\ e.args.n \in Kids(m.rels[RelIdx(m, e.args.o, e.args.ri)])
+    [] e.a \in {"EditAbstract", "EditRename"} -> e.args.f \in Names(m)
+    [] e.a = "EditAttrVal" -> e.args.f \in Names(m) /\ e.args.k \in DOMAIN FeatOf(m, e.args.f).attrs
+    [] e.a \in {"EditRemoveCtc", "EditCtcOp"} -> e.args.i \in DOMAIN m.ctcs
+    [] OTHER -> TRUE
 BuildClauses(cur, e) ==
   << <<"C03.build.shape", e.anom = <<>> >>,
-     <<"C03.build.step",  SameModel(e.post, BuildExpected(cur, e))>> >>
+     <<"T.edit.args",     EditArgsOK(cur, e)>> >>
+  \o Guarded(EditArgsOK(cur, e), << <<"C03.build.step",  SameModel(e.post, BuildExpected(cur, e))>> >>)
   \o WfClauses("C03.build", e.post)
 
 ---------------------------------------------------------------------------
@@ -122,6 +145,9 @@ QueryClauses(cur, e) ==
      <<"C03.listing.constraints", R.constraints = Idx(m.ctcs)>>,
      <<"C03.lookup", /\ \A i \in DOMAIN R.lookup : R.lookup[i].found = R.lookup[i].n /\ R.lookup[i].same
                      /\ R.lookup_missing = "">>,
+     \* a name that is no longer (or again) in the tree is looked up in the CURRENT tree
+     <<"C03.lookup.gone", \A i \in DOMAIN R.lookup_gone :
+                             R.lookup_gone[i].found = (IF R.lookup_gone[i].n \in Names(m) THEN R.lookup_gone[i].n ELSE "")>>,
      <<"C03.parent",   AllF(LAMBDA q, f : q.parent = TreeParent(m, f))>>,
      <<"C03.children", AllF(LAMBDA q, f : SameBag(q.children, ChildSeq(m, f)))>>,
      <<"C03.nrel",     AllF(LAMBDA q, f : q.nrel = Len(RelsOf(m, f)))>>,
